@@ -58,6 +58,7 @@ pub fn len_menu(nd: f64) -> Vec<f64> {
 
 /// All checks for one (mode, points); pushes violations.
 pub fn check_shape(mode: GameMode, pts: &[PathControlPoint], bufs: &mut CurveBuffers, acc: &mut Acc) {
+    let _g = crate::engine::watch::guard("points", |s| s.push_str(&format!("{mode:?} {}", points_json(pts))));
     let scale = 1.0 + super::curves::max_abs(pts);
     let nat = Curve::new(mode, pts, None, bufs);
     acc.evals += 1;
